@@ -311,6 +311,53 @@ pub fn run_check(replay: Option<Value>) -> i32 {
             }
         }
     }
+    // low-level API: the interpolant a callback obtains by asking for output inside the next step (XOut)
+    // from a solver built with dense_output(false) is the same interpolant a dense_output(true) solver
+    // hands out at every step (forward runs: XOut is a point ahead in the direction of increasing x)
+    for m in [Method::RK4, Method::RK23, Method::DOPRI5, Method::DOP853, Method::RADAU] {
+        for (pi, (p0, span)) in sprobs.iter().enumerate() {
+            let mut c = Cfg::new(m, 0.0, *span, &p0.y0).tol(1e-6, 1e-8);
+            c.user_jac = true;
+            if m == Method::RK4 {
+                c.first_step = Some(span / 57.3);
+            }
+            let thetas = [0.1, 0.5, 0.9];
+            let a = run_lowlevel(p0, &c, &[], &thetas, None, false);
+            let mut cb = c.clone();
+            cb.low_dense = Some(false);
+            let script: Vec<(usize, Ans)> = (0..a.recs.len() + 2).map(|k| (k, Ans::XOut(-1.0))).collect();
+            let b = run_lowlevel(p0, &cb, &script, &thetas, None, false);
+            rep.evaluations += 2;
+            rep.transitions += a.st.n_ode + b.st.n_ode;
+            let key = format!("xout:{}:{}", mname(m), pi);
+            let mut bad: Option<String> = None;
+            if a.ok().is_none() || b.ok().is_none() || a.recs.len() != b.recs.len() || a.recs.len() < 3 {
+                bad = Some(format!("runs ended with {} ({} callbacks) / {} ({} callbacks)", a.outcome_name(), a.recs.len(), b.outcome_name(), b.recs.len()));
+            } else {
+                for j in 1..a.recs.len() {
+                    let (ra, rb) = (&a.recs[j], &b.recs[j]);
+                    if ra.x.to_bits() != rb.x.to_bits() || ra.y.iter().zip(&rb.y).any(|(u, v)| u.to_bits() != v.to_bits()) {
+                        bad = Some(format!("step {}: the accepted steps differ between dense_output(true) and dense_output(false)+XOut", j));
+                        break;
+                    }
+                    if !rb.has_interp {
+                        bad = Some(format!("step {}: no interpolant although output inside the step was requested through XOut", j));
+                        break;
+                    }
+                    let (ia, ib) = (&a.interior[j], &b.interior[j]);
+                    if ia.len() != ib.len() || ia.iter().zip(ib).any(|(u, v)| u.1.iter().zip(&v.1).any(|(x, y)| x.to_bits() != y.to_bits())) {
+                        bad = Some(format!("step {} [{:e},{:e}]: interpolant values at theta = {:?} differ: {:?} (dense_output on) vs {:?} (off, XOut)", j, ra.xold, ra.x, thetas, ia.iter().map(|q| q.1.clone()).collect::<Vec<_>>(), ib.iter().map(|q| q.1.clone()).collect::<Vec<_>>()));
+                        break;
+                    }
+                    rep.validated += 1;
+                }
+            }
+            *rep.tags.entry("xout-vs-dense".into()).or_insert(0) += 1;
+            if let Some(msg) = bad {
+                rep.violations.push(Violation::new(&key, "xout-interpolant", format!("{} on {}: {}", mname(m), p0.name, msg), json!({"key": key})).with("method", mname(m)));
+            }
+        }
+    }
     if let Some(case) = replay {
         if let Some(name) = case["regression"].as_str() {
             return regress::replay(name).unwrap_or(2);
